@@ -252,7 +252,8 @@ func probesFor(rng interface {
 func TestCheck(t *testing.T) {
 	r := mon.Start(t, "C03")
 	defer r.Finish()
-	r.Note("rule", "per bridge (fresh identity and DRBG seed; IAT mode and bias vary): a positive control (valid reference handshake -> the server answers), then probes of every class: silence, random strings of lengths around every limit (1..20000), a valid hello truncated at every field boundary +-1 / extended by trailing bytes / with one bit flipped in representative, padding, mark, MAC, wrong hour (+-2, +-3, other decimal renderings), wrong B, wrong NODEID, byte-identical replay of the accepted hello (at once, and for hellos stamped hour -1/0/+1 again 1 s, 61 min, 2 h 5 min, 2 h 58 min, 3 h 1 min and 5 h after they were accepted), low-order-point representatives with valid mark+MAC, a valid hello completed after 31 s, mark beyond 8192, padding below the minimum, probes that disconnect first; each under a PRNG-chosen chunking {all,1,64,PRNG}, optionally with continuing garbage every second and a bounded 4 KiB window. Non-trivial = a probe that ran to the server's close (or its own disconnect); distinct = (bridge, class, index).")
+	r.SpinWatch(memwire.BytesMoved)
+	r.Note("rule", "per bridge (fresh identity and DRBG seed; IAT mode and bias vary): a positive control (valid reference handshake -> the server answers), then probes of every class: silence, random strings of lengths around every limit (1..20000), a valid hello truncated at every field boundary +-1 / extended by trailing bytes / with one bit flipped in representative, padding, mark, MAC, wrong hour (+-2, +-3, other decimal renderings), wrong B, wrong NODEID, byte-identical replay of the accepted hello (at once, as 2..8 simultaneous presentations of one fresh hello of which at most one may be answered, and for hellos stamped hour -1/0/+1 again 1 s, 61 min, 2 h 5 min, 2 h 58 min, 3 h 1 min and 5 h after they were accepted), low-order-point representatives with valid mark+MAC, a valid hello completed after 31 s, mark beyond 8192, padding below the minimum, probes that disconnect first; each under a PRNG-chosen chunking {all,1,64,PRNG}, optionally with continuing garbage every second and a bounded 4 KiB window. Non-trivial = a probe that ran to the server's close (or its own disconnect); distinct = (bridge, class, index).")
 	dir := o4.StateDir("c03")
 	nBridges := r.Pick(64, 1024)
 	for bi := 0; bi < nBridges; bi++ {
@@ -318,6 +319,50 @@ func TestCheck(t *testing.T) {
 				pr.ps = pr.mk()
 				res := o4.RunProbe(c, sf, pr.ps)
 				judge(c, r, sf, b, bi, pi, pr, res, &D, &Dclass)
+			}
+			// the same valid hello on k connections at the same instant: all but one
+			// of them are replays and must be met with silence
+			{
+				rr := o4.RandReader{R: rng}
+				key := ref.NewKeypair(rr)
+				pad := make([]byte, ref.ClientMinPad+rng.IntN(500))
+				io.ReadFull(rr, pad)
+				hh := ref.BuildClientHello(b.Ref, key, pad, o4.Hours(0))
+				k := 2 + rng.IntN(7)
+				results := make([]*o4.ProbeResult, k)
+				var cwg sync.WaitGroup
+				for i := 0; i < k; i++ {
+					i := i
+					cwg.Add(1)
+					c.Go(cwg.Done, func() {
+						results[i] = o4.RunProbe(c, sf, o4.ProbeScript{Segments: [][]byte{hh.Bytes}, CloseAfter: -1})
+					})
+				}
+				cwg.Wait()
+				answered := 0
+				for _, res := range results {
+					if res.Accepted {
+						answered++
+						res.Conn.Close()
+						res.Client.Close()
+					}
+				}
+				r.Count("concurrent_replay_groups", 1)
+				if answered > 1 {
+					c.Violation("not-silent/concurrent-replay", fmt.Sprintf("%d of %d simultaneous presentations of one hello were answered: all but one are replays", answered, k), map[string]any{"bridge": bi, "k": k})
+				} else if answered == 0 {
+					c.Violation("control/valid-handshake-refused/concurrent", fmt.Sprintf("none of %d simultaneous presentations of a fresh valid hello was answered", k), nil)
+				}
+				first := true
+				for i, res := range results {
+					if res.Accepted && first {
+						first = false
+						continue
+					}
+					if !res.Accepted {
+						judge(c, r, sf, b, bi, 2000+i, probe{class: "concurrent-replay", ps: o4.ProbeScript{Segments: [][]byte{hh.Bytes}, CloseAfter: -1}}, res, &D, &Dclass)
+					}
+				}
 			}
 			// replays after a while: hellos stamped with the previous, the current and
 			// the next hour of the server clock are accepted once each, then replayed
